@@ -14,7 +14,12 @@ TECHNIQUE = ('table agreement between the compiler\'s name tables (Options.direc
              'and a statement-order model of the module namespace of Shadow.py (bindings, del, globals() stores evaluated over finite sets, '
              'sys.modules registrations, attribute lookup through classes/instances/functions); exactness (float-taint) abstract interpretation of the '
              'integer emulation functions of Shadow.py; decision table of AdjustDefByDirectives.visit_DefNode obtained by interpreting its code in the checker '
-             'over the complete domain of decorator combinations')
+             'over the complete domain of decorator combinations; (strengthening 4, sa/rules/sC38.py) finite-domain evaluation of the extracted bodies of Shadow.cdiv/cmod over '
+             'every sign x residue class of small divisors against the C99 definition; three-valued evaluation of every __exit__ in the world "an exception is in flight"; '
+             'typedef()-chain resolution of the shadow C-type names against the type classes of PyrexTypes; world evaluation (Mini) of ParallelRangeNode.analyse_declarations, '
+             'TransformBuiltinMethods.visit_SimpleCallNode/visit_GeneralCallNode, DefNode.as_cfunction and InterpretCompilerDirectives.try_to_parse_directives/'
+             'try_to_parse_directive/visit_WithStatNode per directive x argument shape, compared with an abstract call evaluator (signature binding + returned value) over the '
+             'object descriptors of the shadow model')
 DECIDES = ('necessary conditions for "a pure-mode module imports and runs under CPython exactly when it compiles": '
            '(DIR) every directive that the compiler accepts as decorator or with-item (a key of Options.directive_types or _directive_defaults whose '
            'directive_scopes entry is absent or names a non-module scope) resolves as an attribute path of the Shadow module, dotted names through '
@@ -30,13 +35,47 @@ DECIDES = ('necessary conditions for "a pure-mode module imports and runs under 
            '(EXC, sa/rules/sC38.py) for each of the 32 combinations {cfunc, ccall} x @exceptval x @returns x annotation_typing x return annotation, every path of '
            'AdjustDefByDirectives.visit_DefNode that reaches as_cfunction passes: the explicit @exceptval value unchanged with has_explicit_exc_clause=True; '
            'otherwise, when a C return type is passed (from @returns or from the annotation), an exception clause with check=True - so exceptions propagate out of '
-           'compiled pure-mode C functions as they do when interpreted.')
-NOT_DECIDED = ('the values computed by cdiv/cmod (that the exact integer arithmetic implements truncation: sign cases and rounding are numeric, not structural), '
-               'cast and the typedef call emulation; whether a Shadow binding has the right '
-               'call shape (bare decorator vs decorator factory vs context manager); wrap-around of C integer arithmetic; program equivalence. '
+           'compiled pure-mode C functions as they do when interpreted. '
+           '(TRUNC) the bodies of Shadow.cdiv / Shadow.cmod, interpreted by the checker, equal the C99 quotient truncated toward zero / the remainder with the sign of the '
+           'dividend on every pair (a, b) with b in +-{1,2,3,5,7} and |a| <= 3|b|+2 (all sign combinations, every residue class of a modulo |b| on both sides of zero, zero '
+           'included); representative because - checked syntactically, reported as info otherwise - the functions inspect their operands only through + - * // % unary minus, '
+           'abs, divmod and comparisons, so their behaviour is piecewise determined by signs and residues. '
+           '(EXIT) every __exit__ defined by a class of Shadow.py returns a false value on every path when its arguments are live exception info (not None, true): no '
+           '`with cython.nogil / gil / critical_section(o) / <directive>(v)` block and no pymutex swallows an exception uncompiled; delegation to another object is info. '
+           '(KIND) for every C type name N that parse_basic_ctype resolves by table lookup to a numeric type object, the builtin at the end of the typedef() chain of '
+           'Shadow.N (through py_int/py_float/py_complex, the globals() loops over int_types/float_types/complex_types, aliases) is int for is_int, float for is_float, complex '
+           'for is_complex type classes and bool for the class whose to_py_function is a PyBool conversion (bint). '
+           '(PRANGE) the prange method of the object registered as cython.parallel returns range(S, T, K) with (S, T, K) = the (start, stop, step) slots in which '
+           'ParallelRangeNode.analyse_declarations stores 1, 2 and 3 positional arguments (omitted start = 0, omitted step = 1). '
+           '(COP) visit_SimpleCallNode builds, on every path without error(), binop_node(`/`) for cdiv and binop_node(`%`) for cmod with operands (arg0, arg1) and '
+           'cdivision = True (keyword or later attribute store), and TypecastNode(type = type named by arg0, operand = arg1) for cast; same for cast with keywords in '
+           'visit_GeneralCallNode; the @ccall branch of visit_DefNode passes overridable=True and the @cfunc branch overridable=False to as_cfunction; the element of the '
+           'exceptval pair that as_cfunction hands to exception_check= / exception_value= is the element in which visit_DefNode and try_to_parse_directive put the check flag / value. '
+           '(SHAPE) per directive usable as decorator, per spelling the compiler accepts for it (read from try_to_parse_directives / try_to_parse_directive per directive type: '
+           'bare, (), (v), (v, v), (k=v), (check=v), (v, check=v), (<sub-option>=v)): the call binds to the signature of the shadow function / lambda / class / __call__ and the '
+           'result applied to the decorated object evaluates to that object (wrappers that keep a reference to it: info) - demanded of every accepted spelling when the compiler '
+           'accepts only bare or only call spellings, and of at least one accepted spelling for bool / deferred directives where both are accepted; directives whose '
+           'directive_scopes entry names "with statement": an accepted spelling evaluates to an object with __enter__ and __exit__; Shadow.cast binds every keyword '
+           'visit_GeneralCallNode looks up (typecheck) and does not reject it before use.')
+NOT_DECIDED = ('the transfer of the cdiv/cmod value clause from the enumerated small operands to large ones (a function with a magnitude threshold above 23 would pass; '
+               'C38-EXACT excludes the float route); value conversion by cast / the typedef call / declare on run-time values (None, out-of-range, float to int); '
+               'that EVERY spelling the compiler accepts for a bool directive works uncompiled (on the unmodified tree each bool directive supports one of bare / call: '
+               'rule_shape_all_forms, pending finding, not registered), with-statement use of directives without an explicit "with statement" scope, sub-option keywords '
+               '(`infer_types(verbose=True)`); the default of exceptval(check=); C type names reached only through parse_basic_type prefixes (longlong, uint, p_int); '
+               'wrap-around of C integer arithmetic; program equivalence. '
                'Dotted special methods (cython.operator.*) and cython.view are compile-only by design and only enter through the SUBMOD exemptions.')
 ASSUMPTIONS = ['Shadow.py is executed top to bottom once; `if TYPE_CHECKING:` bodies do not run (typing.TYPE_CHECKING is False at run time)',
-               'cython.py re-exports the Shadow namespace with `from Cython.Shadow import *`, so names with a leading underscore are not part of `cython.*`']
+               'cython.py re-exports the Shadow namespace with `from Cython.Shadow import *`, so names with a leading underscore are not part of `cython.*`',
+               'TRUNC/COP: the meaning of the names is fixed - cdiv is the C operator `/`, cmod the C operator `%` on signed integers (C99 6.5.5); operands stay in range',
+               'COP: a node class gets keyword arguments of its constructor as attributes (Node.__init__), so binop_node(..., cdivision=True) equals a later attribute store; '
+               'directives reach AdjustDefByDirectives.visit_DefNode as the values try_to_parse_directive returned',
+               'SHAPE: the worlds are decorator / with-item expressions whose arguments are not the literal None (which selects the directive default for every type); the node '
+               'classes CallNode / AttributeNode / NameNode tested by try_to_parse_directives distinguish the call from the bare spelling; for deferred-argument directives '
+               '(nogil, gil, critical_section, dataclasses.*) only the bare and the one-argument spelling are claimed; a directive argument of a bool/int/str/list directive is a '
+               'compile-time literal, hence not callable',
+               'KIND: a C type is converted to the Python type named by the is_int / is_float / is_complex flag of its type class, to bool when its to_py_function is a PyBool '
+               'conversion; character types (PyUnicode conversion: Py_UCS4, Py_UNICODE) are documented as int-or-str and not compared',
+               'PRANGE: start=None / step=None of ParallelRangeNode mean 0 / 1 (C37-TRIP)']
 
 EXEMPT = {
     ('C38-DIR', 'directive:staticmethod'):
@@ -94,6 +133,25 @@ MUTATIONS += [   # strengthening round (seeds C38a / C38b): all reported with ex
     (PTT, "ccall branch: drop `except_val=except_val` from the as_cfunction call", 'C38-EXC exc:ccall:explicit-value, exc:ccall:implicit-check'),
     (PTT, "annotation branch test `return_type_node is not None` -> `is None`", 'C38-EXC exc:*:implicit-check (--TA, through the default (None, False) of as_cfunction)'),
 ]
+MUTATIONS += [   # strengthening 4 (patches under mutants/C38/, replayed by the thorough tier): all reported with exit 1
+    (SHADOW, "cdiv `(a + b + 1) // b` -> `(a + b - 1) // b`; `if a < 0:` negates only a; cdiv without the b < 0 branch", 'C38-TRUNC Shadow.cdiv:value'),
+    (SHADOW, "cmod test `(a * b) < 0` -> `a < 0`; `r -= b` -> `r += b`; adjustment dropped; `and r` dropped", 'C38-TRUNC Shadow.cmod:value'),
+    (SHADOW, "_nogil.__exit__ returns True / a local `handled = exc_type is not None`; critical_section.__exit__ returns `exc_type is not None`; "
+             "_EmptyDecoratorAndManager.__exit__ returns True; _pymutex_base.__exit__ `... or True`", 'C38-EXIT Shadow.<class>.__exit__'),
+    (SHADOW, "bint = typedef(int, ...); float loop -> typedef(py_int, ...); complex loop -> py_float; int loop -> py_float; py_float = typedef(int, ...)", 'C38-KIND kind:<name>'),
+    (SHADOW, "prange: `start = 0` dropped; range(start, stop) without step; range(stop, start, step)", 'C38-PRANGE prange:arity<n>'),
+    ('Cython/Compiler/Nodes.py', "ParallelRangeNode.analyse_declarations: `self.stop, self.start = self.args`", 'C38-PRANGE prange:arity2'),
+    (PTT, "visit_SimpleCallNode: cdiv builds '%'; cmod without cdivision / cdivision = False; operands swapped (cdiv, cmod); cdiv branch removed; cast operand=args[0]", 'C38-COP cop:<name>:call'),
+    (PTT, "visit_GeneralCallNode: cast analyses args[1] as the type", 'C38-COP cop:cast:call-with-keywords'),
+    (PTT, "visit_DefNode: ccall branch overridable=False; cfunc branch overridable=True", 'C38-COP overridable:<kind>'),
+    ('Cython/Compiler/Nodes.py', "as_cfunction: `exception_check, exception_value = except_val or (False, None)`", 'C38-COP except-slots:*'),
+    (PTT, "try_to_parse_directive returns ('exceptval', (check, value))", 'C38-COP except-slots:InterpretCompilerDirectives.try_to_parse_directive'),
+    (SHADOW, "_EmptyDecoratorAndManager.__call__ returns self; _nogil.__call__ always returns self; chained directive lambda without parameter", 'C38-SHAPE shape:<d>:decorator:*'),
+    (SHADOW, "exceptval lambda without default / keyword renamed; def locals(*arg_types); test_assert_path_exists(paths)", 'C38-SHAPE shape:<d>:decorator:call(...)'),
+    (SHADOW, "_EmptyDecoratorAndManager without __enter__", 'C38-SHAPE shape:ccall:with:bare ...'),
+    (SHADOW, "cast no longer pops typecheck before `assert not kwargs`", 'C38-SHAPE shape:cast:call(T, v, typecheck=ARG)'),
+    (OPTIONS, "directive_types['ufunc'] = int; directive_scopes['inline'] gains 'with statement'", 'C38-SHAPE shape:ufunc:decorator:call(ARG), shape:inline:with:bare'),
+]
 PRESERVING = [
     # behaviour-preserving edits, all silent
     (SHADOW, "reorder the names inside the chained `nonecheck = cdivision = ...` assignment"),
@@ -112,6 +170,17 @@ PRESERVING = [
     (SHADOW, "register cython.parallel through a named instance `_par = CythonDotParallel()`"),
     (OPTIONS, "write directive_scopes['ccomplex'] as ['module'] instead of ('module',)"),
     (PTT, "replace `special_methods.update(unop_method_nodes)` by `special_methods |= {literal set}`"),
+    # strengthening 4: all silent
+    (SHADOW, "cdiv: `a, b = -a, -b`; `sign * (abs(a) // abs(b))`; repeated subtraction in a while loop; `if b / 1 < 0`"),
+    (SHADOW, "cmod: `(a < 0) != (b < 0)` with `r != 0`; divmod with early return; bit trick `(a ^ b) < 0` (info: outside the fragment)"),
+    (SHADOW, "__exit__: `return not exc_type`; if/early returns; `*exc_info` with `exc_info[0] is None and None`; class-level lambda returning None"),
+    (SHADOW, "float loop through locals `base = py_float`; loop unrolled into explicit typedef bindings; `_pybool = bool; bint = typedef(_pybool, ...)`"),
+    (SHADOW, "prange: `start, stop = 0, start`; `return range(start)` for one argument; parameters renamed + conditional expression + iter(range(...))"),
+    ('Cython/Compiler/Nodes.py', "analyse_declarations: arity dispatch by index instead of tuple unpacking; as_cfunction reads the exceptval pair by index"),
+    (PTT, "visit_SimpleCallNode: cmod/cdiv branches merged with an operator table; cdivision=True as keyword of binop_node; cast branch with unpacked locals and reordered keywords"),
+    (PTT, "visit_DefNode: overridable passed through a local; try_to_parse_directive int branch by De Morgan; try_to_parse_directives bare test through a local"),
+    (SHADOW, "exceptval as def; locals as lambda **kw; manager __call__ through a local; the chained directive lambda as a named def; cast with an explicit typecheck parameter; "
+             "cast if/elif chain as early returns"),
 ]
 
 
@@ -374,5 +443,5 @@ def run(ctx):
     pc = ast.parse("class X:\n    def visit_NameNode(self, node):\n        if node.as_cython_attribute() == 'compiled':\n            return ExprNodes.BoolNode(node.pos, value=False)\n        return node\n").body[0]
     r.positive_control(_compiled_rewrites(pc) == [('visit_NameNode', 4, False)], 'compiled rewritten to False')
     rules.append(r)
-    rules += [sC38.rule_exact(ctx), sC38.rule_exc(ctx)]
+    rules += [sC38.rule_exact(ctx), sC38.rule_exc(ctx), sC38.rule_trunc(ctx), sC38.rule_exit(ctx), sC38.rule_kind(ctx), sC38.rule_prange(ctx), sC38.rule_cop(ctx), sC38.rule_shape(ctx)]
     return rules
